@@ -110,3 +110,24 @@ package mux
 //@   atomic [read-only] mapUnchanged(r.z)
 //@   atomic [found-iff-registered] (rt != nil) <==> present(r.z, keyId(ite(len(pattern) == 0, "/", pattern)))
 //@   atomic [copy-of-the-entry] rt != nil ==> rt.h == r.z[keyId(ite(len(pattern) == 0, "/", pattern))].h && rt.regexMatcher == r.z[keyId(ite(len(pattern) == 0, "/", pattern))].regexMatcher && fresh(rt)
+//
+// GetRoutes hands out a snapshot of the table taken inside one critical section: a map of its own
+// (never the guarded table itself) with exactly the registered patterns and, per pattern, the entry's
+// handler and matcher; the table is not modified. (x/exp/maps.Clone by assumed contract.)
+//
+//@ func (*Router) GetRoutes() (rs map[string]Route)
+//@   requires r != nil && r.m != nil
+//@   cs-pure mapUnchanged(r.z)
+//@   atomic [read-only] mapUnchanged(r.z)
+//@   atomic [snapshot-keys] forall k int :: {present(rs, k)} present(rs, k) <==> present(r.z, k)
+//@   atomic [snapshot-entries] forall k int :: {present(rs, k)} present(r.z, k) ==> rs[k].h == r.z[k].h && rs[k].regexMatcher == r.z[k].regexMatcher
+//@   ensures [own-copy] fresh(rs)
+//
+// SetErrorHandler: the error callback is replaced under the router lock; routes and default handler stay.
+//
+//@ guarded Router.errors by Router.m
+//
+//@ func (*Router) SetErrorHandler(h func(error))
+//@   requires r != nil && r.m != nil
+//@   cs-pure mapUnchanged(r.z)
+//@   atomic [sets-error-callback] r.errors == h && mapUnchanged(r.z) && r.defaultHandler == old(r.defaultHandler)
